@@ -8,7 +8,11 @@ def _expr(s):
     return eval(s, {"__builtins__": {}})
 
 def _hexlist(path, regex, lean_name, fallback, what):
-    vals = [int(x.replace("_", ""), 0) for x in _re.findall(regex, src(path))]
+    """ladder of exclusive upper bounds `x < T`; an inclusive comparison `x <= T` is normalised to T+1"""
+    vals = []
+    for m in _re.finditer(regex, src(path)):
+        v = int(m.group(2).replace("_", ""), 0)
+        vals.append(v + 1 if m.group(1) == "<=" else v)
     if len(vals) != len(fallback):
         misses.append("%s:%s" % (path, what))
         vals = fallback
@@ -16,7 +20,7 @@ def _hexlist(path, regex, lean_name, fallback, what):
     return vals
 
 # write_atom.rs: the `size < …` ladder of write_atom_encoding_prefix_with_size
-_hexlist("src/serde/write_atom.rs", r"else if size < (0x[0-9a-fA-F_]+)", "writeAtomThresholds",
+_hexlist("src/serde/write_atom.rs", r"else if size (<=?) (0x[0-9a-fA-F_]+)", "writeAtomThresholds",
          [0x40, 0x2000, 0x100000, 0x8000000, 0x400000000], "size thresholds")
 # parse_atom.rs: decode_size_with_offset limits
 pattern("src/serde/parse_atom.rs", r"if atom_size >= (0x[0-9a-fA-F_]+)", "decodeSizeMax", 0x400000000, "atom_size bound")
@@ -38,7 +42,7 @@ def _minvalues():
     nat_list("canonMinValue", vals, "src/serde/tools.rs is_canonical_atom min_value for prefix_len 1..6")
 _minvalues()
 # serialized_length.rs: serialized_length_atom ladder
-_hexlist("src/serde/serialized_length.rs", r"else if lb < (0x[0-9a-fA-F_]+)", "serLenAtomThresholds",
+_hexlist("src/serde/serialized_length.rs", r"else if lb (<=?) (0x[0-9a-fA-F_]+)", "serLenAtomThresholds",
          [0x40, 0x2000, 0x100000, 0x8000000], "serialized_length_atom thresholds")
 # ser.rs: default limit of node_to_bytes
 pattern("src/serde/ser.rs", r"node_to_bytes_limit\(a, node, (\d+)\)", "nodeToBytesLimit", 2000000, "node_to_bytes default limit")
